@@ -24,9 +24,9 @@
    so that relocation can be stated (PIPE_relocate); no function reads it.
 
    Out of scope (absent from the syntax; other properties cover them): patches (SMP, JSON-6902), images, replicas,
-   replacements, vars, components, `configurations:`/`crds:`, helm, external plugins, `generatorOptions:`, file /
+   replacements, vars, components, `configurations:`/`crds:`, helm, external plugins, `immutable`, file /
    env sources and binary (non UTF-8) values of generators, `buildMetadata`, custom openapi schemas, `kind: List`
-   documents, the local-config annotation (IgnoreLocal), documents that already carry internal.config.kubernetes.io
+   documents, documents that already carry internal.config.kubernetes.io
    build annotations.  Definitions only; proofs are in Res/PipelineProofs.v. *)
 From KV Require Export Res.BuildRefs.
 From KV Require Res.Labels Res.LabelsDefaults Res.Namespace Res.Hygiene Res.Generators Res.LegacySort.
@@ -51,8 +51,15 @@ Record pgen := mkPGen {
   pg_disable_hash : bool              (* options.disableNameSuffixHash *)
 }.
 
+(* generatorOptions: of a kustomization file *)
+Record pgopts := mkPGopts {
+  go_labels : pairs;
+  go_annos : pairs;
+  go_disable_hash : bool
+}.
+
 (* the directives of one kustomization file *)
-Record pdirs := mkPDirs {
+Record pdirs := mkPDirsG {
   pd_ns : string;                             (* namespace: *)
   pd_prefix : string;                         (* namePrefix: *)
   pd_suffix : string;                         (* nameSuffix: *)
@@ -60,8 +67,12 @@ Record pdirs := mkPDirs {
   pd_common_labels : pairs;                   (* commonLabels: *)
   pd_common_annos : pairs;                    (* commonAnnotations: *)
   pd_cmgens : list pgen;                      (* configMapGenerator: *)
-  pd_secgens : list pgen                      (* secretGenerator: *)
+  pd_secgens : list pgen;                     (* secretGenerator: *)
+  pd_genopts : option pgopts                  (* generatorOptions: (None: absent) *)
 }.
+
+(* a kustomization file without generatorOptions *)
+Definition mkPDirs ns p s l cl ca cm sec : pdirs := mkPDirsG ns p s l cl ca cm sec None.
 
 Inductive ptree :=
 | PFile (docs : list node)                                (* a resource file: its documents, in order *)
@@ -158,6 +169,20 @@ Section Pipeline.
   Definition gen_resource (secret : bool) (g : pgen) : res resource :=
     do n <- gen_node secret g;
     Ok (mkRes n None None None None None (negb (pg_has_opts g && pg_disable_hash g))).
+
+  (* types.MergeGlobalOptionsIntoLocal: local entries win, global entries fill in missing keys, the hash suffix is
+     disabled when either side says so *)
+  Definition merge_pairs (l g : pairs) : pairs :=
+    (l ++ filter (fun kv => negb (str_in (fst kv) (map fst l))) g)%list.
+  Definition merge_genopts (go : option pgopts) (g : pgen) : pgen :=
+    match go with
+    | None => g
+    | Some o =>
+        mkPGen (pg_name g) (pg_ns g) (pg_behavior g) (pg_literals g) (pg_type g) true
+               (merge_pairs (if pg_has_opts g then pg_labels g else []) (go_labels o))
+               (merge_pairs (if pg_has_opts g then pg_annos g else []) (go_annos o))
+               ((pg_has_opts g && pg_disable_hash g) || go_disable_hash o)
+    end.
 
   (* ----- resWrangler.appendReplaceOrMerge ----- *)
 
@@ -274,21 +299,22 @@ Section Pipeline.
 
   (* runGenerators: every configMapGenerator entry, then every secretGenerator entry (generated order),
      each absorbed in turn *)
-  Fixpoint run_gens (secret : bool) (gens : list pgen) (m : list resource) : res (list resource) :=
+  Fixpoint run_gens (go : option pgopts) (secret : bool) (gens : list pgen) (m : list resource)
+    : res (list resource) :=
     match gens with
     | [] => Ok m
     | g :: t =>
-        do r <- gen_resource secret g;
+        do r <- gen_resource secret (merge_genopts go g);
         do m' <- absorb m (Generators.new_behavior (pg_behavior g)) r;
-        run_gens secret t m'
+        run_gens go secret t m'
     end.
 
   Fixpoint run_generator_kinds (kinds : list string) (d : pdirs) (m : list resource) : res (list resource) :=
     match kinds with
     | [] => Ok m
     | k :: t =>
-        do m' <- (if String.eqb k "ConfigMapGenerator" then run_gens false (pd_cmgens d) m
-                  else if String.eqb k "SecretGenerator" then run_gens true (pd_secgens d) m
+        do m' <- (if String.eqb k "ConfigMapGenerator" then run_gens (pd_genopts d) false (pd_cmgens d) m
+                  else if String.eqb k "SecretGenerator" then run_gens (pd_genopts d) true (pd_secgens d) m
                   else Ok m);
         run_generator_kinds t d m'
     end.
@@ -369,7 +395,8 @@ Section Pipeline.
   Definition dirs_empty (d : pdirs) : bool :=
     String.eqb (pd_ns d) "" && String.eqb (pd_prefix d) "" && String.eqb (pd_suffix d) "" &&
     match pd_labels d, pd_common_labels d, pd_common_annos d with [], [], [] => true | _, _, _ => false end &&
-    match pd_cmgens d, pd_secgens d with [], [] => true | _, _ => false end.
+    match pd_cmgens d, pd_secgens d with [], [] => true | _, _ => false end &&
+    match pd_genopts d with None => true | Some _ => false end.
   Definition is_empty_kust (d : pdirs) (ents : list ptree) : bool :=
     match ents with [] => dirs_empty d | _ => false end.
 
@@ -459,6 +486,45 @@ Section Pipeline.
         end
     end.
 
+  (* KustTarget.IgnoreLocal: DropLocalNodes (GetValidatedMetadata of every non-empty document, then the
+     local-config annotation), Factory.FromResourceSlice of what is kept - which PANICS on an id collision -
+     and ResAccumulator.Intersection: every resource whose id (compared with ==) is not among the kept ones is
+     Removed, and Remove fails unless exactly one resource carries that id *)
+  Definition resid_raw_eqb (a b : resid) : bool :=
+    String.eqb (id_name a) (id_name b) && String.eqb (id_ns a) (id_ns b) &&
+    String.eqb (g_group (id_gvk a)) (g_group (id_gvk b)) && String.eqb (g_version (id_gvk a)) (g_version (id_gvk b)) &&
+    String.eqb (g_kind (id_gvk a)) (g_kind (id_gvk b)) && Bool.eqb (g_cs (id_gvk a)) (g_cs (id_gvk b)).
+
+  Definition validated_meta_ok (n : node) : bool :=
+    negb (String.eqb (get_kind n) "") &&
+    (has_suffix "List" (get_kind n) || negb (String.eqb (get_name n) "")).
+
+  Definition is_local (n : node) : bool :=
+    match Generators.dict_get "config.kubernetes.io/local-config" (node_pairs (meta_field "annotations" n)) with
+    | Some v => negb (String.eqb v "false")
+    | None => false
+    end.
+
+  Fixpoint remove_loop (ids kept : list resid) (cur : list resource) : res (list resource) :=
+    match ids with
+    | [] => Ok cur
+    | id :: t =>
+        if existsb (resid_raw_eqb id) kept then remove_loop t kept cur
+        else
+          let cur' := filter (fun r => negb (resid_raw_eqb (cur_id pipe_cs r) id)) cur in
+          if Nat.eqb (S (List.length cur')) (List.length cur) then remove_loop t kept cur' else Err
+    end.
+
+  Definition ignore_local (m : list resource) : res (list resource) :=
+    let nonempty := filter (fun r => negb (nil_or_empty (r_node r))) m in
+    if negb (forallb (fun r => validated_meta_ok (r_node r)) nonempty) then Err else
+    let kept := filter (fun r => negb (is_local (r_node r))) nonempty in
+    match append_all pipe_cs [] kept with
+    | Ok _ => remove_loop (map (cur_id pipe_cs) m) (map (cur_id pipe_cs) kept) m
+    | Diverge => Diverge
+    | _ => Panic                                   (* FromResourceSlice: panic(err) *)
+    end.
+
   (* krusty.Run (default options, no buildMetadata, default openapi) *)
   Definition build (o : psort) (t : ptree) : res (list node) :=
     match t with
@@ -468,7 +534,8 @@ Section Pipeline.
         do m1 <- mapM hash_res m;                      (* addHashesToNames *)
         do rules <- pipe_rules;
         do m2 <- nameref_transform pipe_cs nonstr rules m1;      (* FixBackReferences *)
-        do m3 <- sort_resources o m2;                  (* applySortOrder *)
+        do m2l <- ignore_local m2;                     (* IgnoreLocal *)
+        do m3 <- sort_resources o m2l;                 (* applySortOrder *)
         Ok (map (fun r => strip_node (r_node r)) m3)   (* RemoveBuildAnnotations *)
     end.
   (* ---------- the name-reference pass under an arbitrary map-iteration order ----------
